@@ -104,8 +104,8 @@ func Process(t parser.TemplateFile) (parser.TemplateFile, error) {
 	if err := eg.Wait(); err != nil {
 		return t, err
 	}
-	// Delete unused imports.
-	for _, imp := range firstGoNodeInTemplate.Imports {
+	// Delete unused imports. Deleting an import shifts the rest of the Imports slice, so range over a copy.
+	for _, imp := range slices.Clone(firstGoNodeInTemplate.Imports) {
 		if !containsImport(updatedImports, imp) {
 			name, path, err := getImportDetails(imp)
 			if err != nil {
